@@ -146,7 +146,23 @@ fn detinv<T: Sc>(t: &mut Toks, cx: &mut Ctx) -> String {
     cx.meta("n", n);
     cx.meta("tag", T::TAG);
     if a.rows() != a.cols() { cx.check(d.is_err() && inv.is_err(), "non-square matrix not rejected"); }
-    format!("det {} inv {}", match &d { Ok(x) => x.wr(), Err(c) => format!("!{}", c) }, match &inv { Ok(m) => wr_mat(m), Err(c) => format!("!{}", c) })
+    // the public in-place LU: factors stored in the matrix, permutation matrix and exchange count returned
+    let mut lu = a.clone();
+    let f = guarded(|| lu.lu_decomp_in_place());
+    if a.rows() != a.cols() { cx.check(f.is_err(), "lu_decomp_in_place: non-square matrix not rejected"); }
+    let lus = match &f { Ok((p, perm)) => {
+            if T::is_exact() && n > 0 {
+                // P A = L U exactly (L unit lower, U upper, both read from the overwritten matrix)
+                let ok = (0..n).all(|i| (0..n).all(|j| { let mut pa = T::zero(); let mut l_u = T::zero();
+                    for k in 0..n { pa += perm[(i, k)] * a[(k, j)]; let l = if k < i { lu[(i, k)] } else if k == i { T::one() } else { T::zero() }; let u = if k <= j { lu[(k, j)] } else { T::zero() }; l_u += l * u; }
+                    pa.same(&l_u) }));
+                cx.check(ok, "lu_decomp_in_place: P A != L U");
+                let isperm = (0..n).all(|i| (0..n).filter(|j| !perm[(i, *j)].same(&T::zero())).count() == 1 && (0..n).filter(|j| perm[(i, *j)].same(&T::one())).count() == 1) && (0..n).all(|j| (0..n).filter(|i| perm[(*i, j)].same(&T::one())).count() == 1);
+                cx.check(isperm, "lu_decomp_in_place: the returned matrix is not a permutation matrix");
+            }
+            format!("{} {} {}", p, wr_mat(&lu), wr_mat(perm)) }
+        Err(c) => format!("!{}", c) };
+    format!("det {} inv {} lu {}", match &d { Ok(x) => x.wr(), Err(c) => format!("!{}", c) }, match &inv { Ok(m) => wr_mat(m), Err(c) => format!("!{}", c) }, lus)
 }
 
 fn detinv_q(t: &mut Toks, cx: &mut Ctx) -> String {
